@@ -66,6 +66,7 @@ def _case(draw, shard):
         outlier_prior=draw(st.sampled_from([0.05, 0.3])) if opp > 0 else 0.0,
         full=full,
         order_idx=draw(st.integers(0, 10 ** 6)),
+        prev_alpha=draw(st.sampled_from([None, 3.0, None, 0.25])),
     )
 
 
@@ -131,6 +132,19 @@ def evaluate(case):
     def base():
         return Tree(grid) if parent_tree is None else parent_tree.copy()
 
+    # pre-history on the same kernel / tree_dist / caches under another concentration value, then change it in place
+    keep_caches = case.get("prev_alpha") is not None
+    if keep_caches:
+        tree_dist.prior.alpha = float(case["prev_alpha"])
+        try:
+            explore(lambda: tree_key(kernel.propose_particle(dp, parent_particle).tree), rng, max_leaves=5000)
+        except Exception as e:
+            raise crash_violation("propose/%s" % kind, e, tags)
+        tree_dist.prior.alpha = float(case["alpha"])
+        if parent_particle is not None:
+            parent_particle = Particle(0, None, TreeHolder(parent_tree, tree_dist, perm), tree_dist, perm)
+        classes.append("alpha-changed-in-place-before")
+
     cands = {}
     try:
         for r in roots:
@@ -169,7 +183,8 @@ def evaluate(case):
         raise Violation("normalisation/%s" % kind, "reported proposal probabilities sum to %.12g over the %d placements (parent %r, opp=%s)" % (tot, len(logq), pm, opp), dict(tags, total=tot))
 
     # (b) exact sampling law
-    gen_clear_prop_only()
+    if not keep_caches:
+        gen_clear_prop_only()
     prop = kernel.get_proposal_distribution(dp, parent_particle, parent_tree)
 
     def draw_one():
@@ -201,7 +216,8 @@ def evaluate(case):
     # (b') particles proposed by the kernel carry the right incremental weight
     from vp.model import from_tree
 
-    gen_clear_prop_only()
+    if not keep_caches:
+        gen_clear_prop_only()
 
     def lpdf(t):
         return -math.log(count_linear_extensions_formula(from_tree(t))) if case["perm"] else 0.0
